@@ -317,6 +317,12 @@ def b_list(ex, state, args, kwargs, sv):
         o.items = []
         return state.alloc(o)
     a = args[0]
+    if isinstance(a, VUnion):
+        a = ex.narrow(state, a)
+        if isinstance(a, VUnion):
+            return ex.dist(state, [a], lambda x: b_list(ex, state, [x], kwargs, sv))
+    if isinstance(a, VNoneT):
+        ex.raise_if(state, z3.BoolVal(True), "TypeError")
     if isinstance(a, VListView):
         # list(d[k]): a snapshot of the list stored in the table
         o.items, o.elem, o.seq = None, a.elem, lv_seq(ex, state, a)
